@@ -392,10 +392,18 @@ def checkRoutes (resolvers tcp udp servers domainSets prefixSets : List String) 
     | .error e => .error e
     | .ok () => checkRoutes resolvers tcp udp servers domainSets prefixSets rts
 
+/-- the set loops of `Config.Router`: a duplicate name is an error iff the code checks it -/
+def setNamesOK (checked : Bool) (code : String) (names : List String) : R Unit :=
+  if checked then checkUnique code [] names else .ok ()
+
 def checkRouter (r : Router) (resolvers tcp udp servers : List String) : R Unit :=
   if !defaultClientOK r.defaultTCP tcp then .error "router-default-tcp"
   else if !defaultClientOK r.defaultUDP udp then .error "router-default-udp"
-  else checkRoutes resolvers tcp udp servers r.domainSets r.prefixSets r.routes
+  else match setNamesOK C18.domainSetNamesUnique "dup-domainset" r.domainSets with
+  | .error e => .error e
+  | .ok () => match setNamesOK C18.prefixSetNamesUnique "dup-prefixset" r.prefixSets with
+  | .error e => .error e
+  | .ok () => checkRoutes resolvers tcp udp servers r.domainSets r.prefixSets r.routes
 
 -- ---------------------------------------------------------------- servers (service/server.go, udp.go)
 
